@@ -105,7 +105,19 @@ func runEpoch(k *kernel.K) {
 		dg := cu.BabeDigest(k.Bool(1, 2, "primary"), 0, b.slot)
 		// the first block of an epoch on its chain announces the data of the next epoch (sometimes it does not)
 		firstOfEpoch := p == g || b.epoch > p.epoch
-		if firstOfEpoch && !k.Bool(1, 5, "no-announcement") {
+		// ... or a later block of the epoch does, if no ancestor within this epoch has announced yet
+		late := false
+		if !firstOfEpoch {
+			announced := false
+			for x := p; x != nil && x != g && x.epoch == b.epoch; x = x.parent {
+				if x.annData != nil {
+					announced = true
+					break
+				}
+			}
+			late = !announced && k.Bool(1, 3, "late-announcement")
+		}
+		if (firstOfEpoch && !k.Bool(1, 5, "no-announcement")) || late {
 			d := types.NextEpochData{Authorities: []types.AuthorityRaw{{Key: [32]byte{uniq, 1}, Weight: 1}}, Randomness: [32]byte{uniq, 0xaa}}
 			b.annData = &d
 			dg.Add(babeConsensus(d))
